@@ -13,3 +13,5 @@ for c in "$@"; do
   echo "== $c rc=$rc: $(echo "$out" | grep -c '^VIOLATION') violation line(s); $(echo "$out" | grep -m2 'detail' | cut -c1-220 | tr '\n' '|')"
 done
 git checkout -q -- .; git status --short | head -3
+# evidence / replay files written while the patch was applied describe the patched tree: restore the committed ones
+git -C /verif checkout -q -- evidence replays 2>/dev/null || true
